@@ -130,6 +130,9 @@ MAXLEN = 2 ** 63
 def make_value(it, t, name: str) -> V:
     if isinstance(t, type) and issubclass(t, T):
         t = t()
+    if isinstance(t, Computed):  # a type chosen at instantiation time (e.g. depending on which contract is being verified)
+        r = t.fn(it, None)
+        return make_value(it, r, name) if isinstance(r, T) else r
     if isinstance(t, Int):
         return it.fresh_int(name, t.lo, t.hi)
     if isinstance(t, Bool):
